@@ -153,3 +153,11 @@ def target_equation_symbols():
 
 def targets():
     return [target_element_to_sympy(), target_connection_to_sympy("series"), target_connection_to_sympy("parallel"), target_equation_symbols()]
+
+
+_targets_before_observers = targets
+
+
+def targets():      # noqa: F811
+    from . import purity
+    return _targets_before_observers() + [purity.target_observers(["circuit/base", "circuit/series", "circuit/parallel", "circuit/circuit", "circuit/circuit_builder", "circuit/transmission_line_model"], "circuit observers keep no state")]
